@@ -104,11 +104,15 @@ impl BufferedSpyMetricSink {
 impl MetricSink for BufferedSpyMetricSink {
     fn emit(&self, metric: &str) -> io::Result<usize> {
         let mut writer = self.writer.lock().unwrap();
+        #[cfg(cadence_verif)]
+        let _scope = crate::verif::Scope::new("sink.cs.enter", "sink.cs.exit");
         writer.write(metric.as_bytes())
     }
 
     fn flush(&self) -> io::Result<()> {
         let mut writer = self.writer.lock().unwrap();
+        #[cfg(cadence_verif)]
+        let _scope = crate::verif::Scope::new("sink.cs.enter", "sink.cs.exit");
         writer.flush()
     }
 }
@@ -126,6 +130,8 @@ impl WriteAdapter {
 
 impl Write for WriteAdapter {
     fn write(&mut self, buf: &[u8]) -> io::Result<usize> {
+        #[cfg(cadence_verif)]
+        crate::verif::point("sink.write");
         send_metric(&self.sender, buf)
     }
 
